@@ -155,6 +155,38 @@ func.func @f(%lb: index, %ub: index, %p: i8) -> i8 {
   }
   func.return %r : i8
 }""", {"x0": (-2, 2), "x1": (-2, 3)}, {1000: (-2, 3)}),
+    "range_fold_chain": ("""
+func.func private @ext(index, index) -> i8
+func.func @f(%lb: index, %ub: index, %p: i8) -> i8 {
+  %st = arith.constant 1 : index
+  %c = arith.constant 1000 : index
+  %d = arith.constant 1001 : index
+  %k = arith.constant 1002 : index
+  %r = scf.for %i = %lb to %ub step %st iter_args(%a = %p) -> (i8) {
+    %j = arith.addi %i, %c : index
+    %m = arith.muli %j, %d : index
+    %n = arith.addi %j, %k : index
+    %e = func.call @ext(%m, %n) : (index, index) -> i8
+    %s = arith.addi %a, %e : i8
+    scf.yield %s : i8
+  }
+  func.return %r : i8
+}""", {"x0": (-2, 2), "x1": (-2, 3)}, {1000: (1, 3), 1001: (1, 3), 1002: (1, 3)}),
+    "range_fold_single_chain": ("""
+func.func private @ext(index) -> i8
+func.func @f(%lb: index, %ub: index, %p: i8) -> i8 {
+  %st = arith.constant 1 : index
+  %c = arith.constant 1000 : index
+  %d = arith.constant 1001 : index
+  %r = scf.for %i = %lb to %ub step %st iter_args(%a = %p) -> (i8) {
+    %j = arith.addi %i, %c : index
+    %m = arith.muli %j, %d : index
+    %e = func.call @ext(%m) : (index) -> i8
+    %s = arith.addi %a, %e : i8
+    scf.yield %s : i8
+  }
+  func.return %r : i8
+}""", {"x0": (-2, 2), "x1": (-2, 3)}, {1000: (1, 3), 1001: (1, 3)}),
     "flatten_unused_iv": ("""
 func.func private @ext(i8) -> i8
 func.func @f(%p: i8) -> i8 {
@@ -242,7 +274,7 @@ PASS_FOR = {
     "convert-scf-to-cf": ["for_iter", "nested_for", "if_results", "while", "licm_div", "licm_nested_if", "hoist_if"],
     "scf-for-loop-unroll": ["unroll_swap", "unroll_rotate", "unroll_reduce", "flatten_unused_iv"],
     "convert-scf-to-cf ": ["unroll_rotate", "unroll_swap"],
-    "scf-for-loop-range-folding": ["range_fold_add", "range_fold_mul", "for_iter"],
+    "scf-for-loop-range-folding": ["range_fold_add", "range_fold_mul", "range_fold_chain", "range_fold_single_chain", "for_iter"],
     "scf-for-loop-flatten": ["flatten_unused_iv", "flatten_used_iv", "nested_for"],
     "licm": ["licm_div", "licm_nested_if", "for_iter", "nested_for"],
     "control-flow-hoist": ["hoist_if", "if_results", "licm_nested_if"],
